@@ -258,7 +258,7 @@ impl<'a, T: QueryToRelationTranslator + Copy + Clone> VisitedQueryRelations<'a, 
                     .collect();
                 Ok(RelationWithColumns::new(relation, columns))
             }
-            _ => todo!(),
+            _ => Err(Error::other(format!("{table_factor} is not supported"))),
         }
     }
 
@@ -326,7 +326,9 @@ impl<'a, T: QueryToRelationTranslator + Copy + Clone> VisitedQueryRelations<'a, 
                         }),
                 )
             }
-            ast::JoinConstraint::None => todo!(),
+            ast::JoinConstraint::None => {
+                return Err(Error::other("A JOIN without constraint is not supported"))
+            }
         })
     }
 
@@ -349,7 +351,7 @@ impl<'a, T: QueryToRelationTranslator + Copy + Clone> VisitedQueryRelations<'a, 
                 self.try_from_join_constraint_with_columns(join_constraint, columns)?,
             )),
             ast::JoinOperator::CrossJoin => Ok(JoinOperator::Cross),
-            _ => todo!(), //TODO implement other JOIN later
+            _ => Err(Error::other("This kind of JOIN is not supported")), //TODO implement other JOIN later
         }
     }
 
@@ -429,10 +431,12 @@ impl<'a, T: QueryToRelationTranslator + Copy + Clone> VisitedQueryRelations<'a, 
                     .collect();
                 join.remove_duplicates_and_coalesce(v, &join_columns)
             }
-            ast::JoinOperator::LeftSemi(_) => todo!(),
-            ast::JoinOperator::RightSemi(_) => todo!(),
-            ast::JoinOperator::LeftAnti(_) => todo!(),
-            ast::JoinOperator::RightAnti(_) => todo!(),
+            ast::JoinOperator::LeftSemi(_)
+            | ast::JoinOperator::RightSemi(_)
+            | ast::JoinOperator::LeftAnti(_)
+            | ast::JoinOperator::RightAnti(_) => {
+                return Err(Error::other("SEMI and ANTI joins are not supported"))
+            }
             _ => {
                 let empty: Vec<(Identifier, Identifier)> = vec![];
                 (Relation::from(join), empty.into_iter().collect())
@@ -463,9 +467,15 @@ impl<'a, T: QueryToRelationTranslator + Copy + Clone> VisitedQueryRelations<'a, 
         tables_with_joins: &'a Vec<ast::TableWithJoins>,
     ) -> Result<RelationWithColumns> {
         // TODO consider more tables
-        // For now, only consider the first element
-        // It should eventually be cross joined as described in: https://www.postgresql.org/docs/current/queries-table-expressions.html
-        self.try_from_table_with_joins(&tables_with_joins[0])
+        // For now, only one element is supported
+        // More should eventually be cross joined as described in: https://www.postgresql.org/docs/current/queries-table-expressions.html
+        match tables_with_joins.as_slice() {
+            [table_with_joins] => self.try_from_table_with_joins(table_with_joins),
+            [] => Err(Error::other("A query without FROM is not supported")),
+            _ => Err(Error::other(
+                "A FROM with more than one item is not supported, use CROSS JOIN",
+            )),
+        }
     }
 
     /// Extracts named expressions from the from relation and the select items
@@ -559,7 +569,7 @@ impl<'a, T: QueryToRelationTranslator + Copy + Clone> VisitedQueryRelations<'a, 
         named_exprs.extend(named_expr_from_select.into_iter());
         // Prepare the GROUP BY
         let group_by = match group_by {
-            ast::GroupByExpr::All => todo!(),
+            ast::GroupByExpr::All => return Err(Error::other("GROUP BY ALL is not supported")),
             ast::GroupByExpr::Expressions(group_by_exprs) => group_by_exprs
                 .iter()
                 .map(|e| self.translator.try_expr(e, columns))
@@ -829,9 +839,9 @@ impl<'a, T: QueryToRelationTranslator + Copy + Clone> VisitedQueryRelations<'a, 
                     // Build a Relation from set operation
                     Ok(Arc::new(relation_builder.try_build()?))
                 }
-                _ => panic!("We only support set operations over SELECTs"),
+                _ => Err(Error::other("We only support set operations over SELECTs")),
             },
-            _ => todo!(),
+            set_expr => Err(Error::other(format!("{set_expr} is not supported"))),
         }
     }
 }
